@@ -108,7 +108,12 @@ def _body(rng, vars_, funcs, depth, lines, indent):
             if rng.random() < 0.6:
                 lines.append(f"{pad}else:")
                 _body(rng, local, funcs, depth + 1, lines, indent + 1)
-        elif r < 0.94 and local:
+        elif r < 0.91 and local:
+            # calls the mock code models: list.append
+            lines.append(f"{pad}{nm} = []")
+            lines.append(f"{pad}{nm}.append({rng.choice(local)})")
+            local.append(nm)
+        elif r < 0.95 and local:
             lines.append(f"{pad}sink({rng.choice(local)})")
         else:
             lines.append(f"{pad}{_call(rng, funcs, local)}")
@@ -173,7 +178,7 @@ def gen_module(rng, mod_name, other_modules, size):
         lines.append(f"def flow_{mod_name}(alpha, beta=None):")
         lines.append("    eta = alpha")
         lines.append("    theta = {'k': eta}")
-        lines.append("    sink(eta)" if rng.random() < 0.6 else "    sink(eta, 'caf\\xe9 \\u540d')")      # an ASCII source whose flow report is not ASCII
+        lines.append("    sink(eta)" if rng.random() < 0.6 else "    sink(eta, \"\\xc3\\xa9\")")      # an ASCII source whose flow report is not ASCII
         lines.append("    return theta")
         lines.append(f"flow_{mod_name}(1)")
     src = "\n".join(lines) + "\n"
